@@ -72,6 +72,7 @@ class FuncContract:
         self.skip_frame = False
         self.calls = []   # call-site obligations: (callee pattern, Clause)
         self.seeds = []   # (param, Go expression) extra replay candidates
+        self.seed_helpers = []
         self.seed_imports = {}
         self.inline = False
         self.opts = {}
@@ -355,6 +356,8 @@ def parse_file(path, cs, repo='/repo', default_pkg=None):
         elif kw == 'seed':
             nm, _, code = rest.partition(' ')
             cur.seeds.append((nm, code.strip()))
+        elif kw == 'seed-helper':
+            cur.seed_helpers.append(rest)
         elif kw == 'seed-import':
             a, p2 = rest.split()
             cur.seed_imports[a] = p2
